@@ -1,4 +1,6 @@
 import NimaVerif.Lemmas.Trivia
+import NimaVerif.Lemmas.FragParse
+import NimaVerif.Lemmas.FragSafe
 /-!
 # C01 — a comment never absorbs code (trivia algebra)
 
@@ -138,5 +140,78 @@ example : applyTrailingTrivia "x = 1;".toList [.comment { text := "c".toList, in
 example : leavesOpenComment [.comment { text := "c".toList, inline := true }, .linebreak] = true := by decide
 example : leavesOpenComment [.comment { text := "c".toList }, .emptyLine] = false := by decide
 example : applyTrailingTrivia "x".toList [.comment { text := "c".toList }, .emptyLine] 2 = "x\n  # c\n\n".toList := by decide
+
+section Fragment
+open Nima.Frag
+
+/-! ## Container fragment (L3–L5): the whole round trip
+
+`Model/Cst.lean` (input: concrete-syntax trees with explicit gaps), `Model/FromCst.lean`
+(`NixSourceCode.from_cst`, `AttributeSet.from_cst`, `Binding.from_cst`, `NixList.from_cst`,
+`parse_delimited_sequence`) and `Model/Rebuild.lean` (`rebuild` of the same classes, string level
+and piece level) model the parse side and the render side for files made of attribute sets with
+plain single-segment names, lists and leaf values, nested to any depth, with arbitrary whitespace
+and line / one-line block comments in every gap. The statements below are about EVERY such tree
+(structural induction), tied to the implementation by `fragment_correspondence`. -/
+
+/-- The piece list the theorems speak about is the output text, cut into pieces. -/
+theorem frag_output_is_pieces (s : Src) : concat s.rebuildP = s.rebuild := concat_srcRebuildP s
+
+/-- `fromCst` never raises on a well-formed file of the fragment. -/
+theorem frag_parse_total (f : File) (hwf : f.wf = true) : ∃ s, f.parse = .ok s := by
+  obtain ⟨s, hp, _, _⟩ := file_parse_spec false f hwf (fun h => by cases h)
+  exact ⟨s, hp⟩
+
+/-- ROUND TRIP PRESERVES THE CODE-TOKEN SEQUENCE: the token pieces of the rebuilt file are the code
+    tokens of the input, in order — for every well-formed file of the fragment that does not start
+    with whitespace (the inputs on which the model is the implementation, see `File.noLeadingWs`). -/
+theorem frag_tokens_preserved (f : File) (s : Src) (hwf : f.wf = true) (_hws : f.noLeadingWs = true)
+    (hp : f.parse = .ok s) : toks s.rebuildP = f.codeTokens := by
+  obtain ⟨s', hp', hok, hl⟩ := file_parse_spec false f hwf (fun h => by cases h)
+  rw [hp] at hp'; injection hp' with hs; subst hs
+  have h1 := (srcRebuildP_lex s hok).1
+  show toksL (lexOf s.rebuildP) = toksL f.items.lex
+  rw [h1, ← toksL_proj_false, hl, toksL_proj_false, items_toks_lexM]
+
+/-- Token and comment pieces of the output are never empty and never end in a line break: the
+    whitespace cuts of the renderer (`rstrip("\n")`, `[:-1]`) only ever remove whitespace it wrote. -/
+theorem frag_pieces_solid (f : File) (s : Src) (hwf : f.wf = true) (hp : f.parse = .ok s) :
+    ∀ p ∈ s.rebuildP, p.solid := by
+  obtain ⟨s', hp', hok, _⟩ := file_parse_spec false f hwf (fun h => by cases h)
+  rw [hp] at hp'; injection hp' with hs; subst hs
+  exact (srcRebuildP_lex s hok).2
+
+
+/-- A COMMENT NEVER ABSORBS CODE. In the rebuilt file, whatever is written after a line-comment
+    piece (`# …`) is nothing at all or starts with a line break — so the comment token tree-sitter
+    reads from the output text ends where the piece ends and no code token is inside it. For every
+    well-formed file of the fragment. (`safeGo` is the scan that decides it; it also says that no
+    token or comment follows an open line comment directly.) -/
+theorem frag_safe (f : File) (s : Src) (hwf : f.wf = true) (_hws : f.noLeadingWs = true) (hp : f.parse = .ok s) :
+    safeGo false s.rebuildP = true ∧
+    ∀ (pre post : List FP) (c : Text), s.rebuildP = pre ++ .cmt c :: post → isLineTok c = true →
+      concat post = [] ∨ startsWithNL (concat post) = true := by
+  have h := file_safe f s hwf hp
+  exact ⟨h, fun pre post c he hl => safeGo_spec false _ pre post c h he hl⟩
+
+/-- In the model, a name is single-segment when the model's fuel version of the attrpath splitter
+    says so; that version is `Model/AttrPath.lean: splitAttrpath` (the transliteration C12 is about). -/
+theorem frag_name_check_is_splitter (t : Text) : splitAttrpathF t = splitAttrpath t := splitAttrpathF_eq t
+
+/-! ### Examples (non-vacuity) -/
+
+/-- `# h⏎{ a = 1; # e⏎}⏎` -/
+def fragSample : File :=
+  { items := .cmt [] "# h".toList (.elem "\n".toList
+      (.set false [] (.bind " ".toList "a".toList [] " ".toList [] " ".toList (.leaf .int "1".toList) [] []
+        (.cmt " ".toList "# e".toList .nil)) "\n".toList) .nil),
+    endGap := "\n".toList }
+
+example : fragSample.flatten = "# h\n{ a = 1; # e\n}\n".toList := by decide
+example : fragSample.wf = true ∧ fragSample.noLeadingWs = true := by decide
+example : fragSample.roundtrip = .ok "# h\n{\n  a = 1; # e\n}\n".toList := by decide
+example : fragSample.codeTokens = ["{", "a", "=", "1", ";", "}"].map String.toList := by decide
+
+end Fragment
 
 end Nima.C01
